@@ -30,6 +30,40 @@ type FieldRec struct {
 	DWC     uint16 `json:"dwc"` // of the allocated (base) struct
 	PC      uint16 `json:"pc"`
 	ListElt string `json:"listelt,omitempty"`
+	TypeID  uint64 `json:"typeid,omitempty"`  // struct / enum / interface type, or such an element type of a list
+	EltDWC  uint16 `json:"eltdwc,omitempty"`  // List(struct): the element node's sizes
+	EltPC   uint16 `json:"eltpc,omitempty"`
+	EltList bool   `json:"eltlist,omitempty"` // List(struct)
+	// struct / list / anyPointer default: the bytes the generator embeds (message holding the default
+	// as its root, as staticData.copyData marshals it); nil for a null default
+	DefBytes []byte `json:"-"`
+}
+
+// DefaultBytes marshals a default pointer the way capnpc-go's staticData.copyData does.
+func DefaultBytes(p capnp.Ptr) ([]byte, error) {
+	if !p.IsValid() {
+		return nil, nil
+	}
+	m, _, err := capnp.NewMessage(capnp.SingleSegment(nil))
+	if err != nil {
+		return nil, err
+	}
+	if err := m.SetRoot(p); err != nil {
+		return nil, err
+	}
+	return m.Marshal()
+}
+
+// IfaceRec: the parameter / result struct types of an interface's methods.
+type IfaceRec struct {
+	Type    string
+	Methods []MethodRec
+}
+
+type MethodRec struct {
+	Name     string // Go method name
+	ParamID  uint64
+	ResultID uint64
 }
 
 type NodeRec struct {
@@ -232,6 +266,19 @@ func defaults(kind string, t schema.Type, v schema.Value) (string, string, error
 type Table struct {
 	Nodes  []NodeRec
 	Fields []FieldRec
+	Ifaces []IfaceRec
+}
+
+func typeRefID(t schema.Type) uint64 {
+	switch t.Which() {
+	case schema.Type_Which_structType:
+		return t.StructType().TypeId()
+	case schema.Type_Which_enum:
+		return t.Enum().TypeId()
+	case schema.Type_Which_interface:
+		return t.Interface().TypeId()
+	}
+	return 0
 }
 
 // Build lists nodes and fields of the struct nodes of file fileID (those the emitted file
@@ -310,9 +357,32 @@ func Build(reqName, pkg string, req schema.CodeGeneratorRequest, fileID uint64, 
 				if err != nil {
 					return fmt.Errorf("%s.%s: %v", goName, fname, err)
 				}
+				fr.TypeID = typeRefID(ty)
+				if dv.IsValid() {
+					var dp capnp.Ptr
+					switch fr.Kind {
+					case "struct":
+						dp, _ = dv.StructValue()
+					case "list":
+						dp, _ = dv.List()
+					case "any":
+						dp, _ = dv.AnyPointer()
+					}
+					if fr.DefBytes, err = DefaultBytes(dp); err != nil {
+						return err
+					}
+				}
 				if fr.Kind == "list" {
 					et, _ := ty.List().ElementType()
 					fr.ListElt = KindOf(et)
+					if fr.ListElt == "struct" || fr.ListElt == "enum" {
+						fr.TypeID = typeRefID(et)
+					}
+					if en, ok := byID[fr.TypeID]; ok && fr.ListElt == "struct" && en.Which() == schema.Node_Which_structNode {
+						fr.EltList = true
+						fr.EltDWC = en.StructNode().DataWordCount()
+						fr.EltPC = en.StructNode().PointerCount()
+					}
 				}
 			case schema.Field_Which_group:
 				fr.Kind = "group"
@@ -339,6 +409,20 @@ func Build(reqName, pkg string, req schema.CodeGeneratorRequest, fileID uint64, 
 	}
 	for i := 0; i < nodes.Len(); i++ {
 		n := nodes.At(i)
+		if n.Which() == schema.Node_Which_interface && inFile(n) {
+			if goName, ok := names.TypeOfID(n.Id()); ok {
+				ir := IfaceRec{Type: goName}
+				ms, _ := n.Interface().Methods()
+				for k := 0; k < ms.Len(); k++ {
+					m := ms.At(k)
+					mname, _ := m.Name()
+					manns, _ := m.Annotations()
+					ir.Methods = append(ir.Methods, MethodRec{Name: strings.Title(rename(manns, mname)),
+						ParamID: m.ParamStructType(), ResultID: m.ResultStructType()})
+				}
+				t.Ifaces = append(t.Ifaces, ir)
+			}
+		}
 		if n.Which() != schema.Node_Which_structNode || n.StructNode().IsGroup() {
 			continue
 		}
